@@ -30,6 +30,22 @@ CHECKS["C06"] = ("property-based testing (Hypothesis): Sampler distribution unde
     "Generated source parameters (boundary-weighted), inputs (bunched, herald photons), lossy/lossless circuits, both backends; distribution compared with an independently written mixture-of-distinguishable-groups model; closed-form metamorphic relations checked separately.",
     "Trusts own permanent and the documented per-photon coefficients; emission configurations are merged by physical equivalence (partition into distinguishability groups) before thresholding.", "3/C06")
 
+CHECKS["C07"] = ("property-based testing (Hypothesis): every sampling method vs exact detected/heralded/post-selected reference distribution; deterministic per-sample predicates plus Pearson chi-square at p < 1e-9",
+    "Generated circuits, inputs, detector settings, post-selection, min_detection, N and seeds for the five sampling methods; each returned state is checked deterministically (length, heralds removed, predicates, support), counts and the accepted fraction statistically against an exact reference built from own permanent and own detector model; seed reproducibility and sample counts asserted exactly.",
+    "Convergence clause is statistical (bias below ~3 sigma/sqrt(N) invisible); chi-square approximation with pooled cells; scipy.stats.chi2 trusted.", "3/C07")
+CHECKS["C08"] = ("stateful property-based testing (Hypothesis RuleBasedStateMachine): snapshots of every pooled circuit/state compared after each generated API call, including generated rejected calls",
+    "Histories of up to 25/40 calls over a pool of circuits (add, +, copy, edits, rewrites, simulate/sample/analyse/Reck/display/tomography/qiskit conversion, rejected calls); invariant after every step: nobody but the receiver of a successful mutating call changes, a raising call changes nothing, module-level gate tables unchanged.",
+    "Observable state = (n_modes, input_modes, heralds, U_full bytes, spec length, internal modes); tomography experiments are fed fake counts (only argument immutability is asserted there).", "3/C08")
+CHECKS["C09"] = ("property-based testing (Hypothesis): generated rewrite sequences on generated circuits, before/after comparison of U_full/heralds plus structural post-conditions and independence of copies",
+    "Generated circuits (all component kinds, groups, heralded groups, parameters) and a swap-heavy generator; after each of 1-4 generated rewrites the full unitary, heralds, input size are compared with the original, post-conditions asserted, an earlier copy must stay untouched and later edits of either object must not leak.",
+    "Metamorphic oracle on the real objects; numpy trusted; tolerance 1e-9.", "3/C09")
+CHECKS["C10"] = ("stateful property-based testing (Hypothesis RuleBasedStateMachine) against a dict model of parameter values/bounds; circuit unitaries compared differentially with a from-scratch rebuild using plain values",
+    "Histories interleaving parameter creation, valid/invalid value and bound updates, ParameterDict operations, circuit construction with parameters in every slot kind (also inside sub-circuits, reused), copying and freezing; after every step model agreement, bounds invariant, live/frozen unitaries, parameter listing and CircuitCompilationError for invalid values are asserted.",
+    "Value domain finite numbers and strings (no NaN/inf); plain-value semantics decided by C01/C02.", "3/C10")
+CHECKS["C11"] = ("stateful property-based testing (Hypothesis RuleBasedStateMachine): long-lived Sampler/QuickSampler/Analyzer compared after every read with freshly constructed objects of the same configuration",
+    "Histories of reconfigurations (circuit reassignment incl. same components with different heralding, in-place circuit edits, parameters, input, source, backend, post-selection, detector) interleaved with distribution reads, seeded sampling, sample() and analyses; every read must equal what a fresh object returns (distribution, seeded samples, result attributes, or the same exception type).",
+    "Differential oracle (fresh object) - exactness of the fresh object's answers is decided by C04-C07.", "3/C11")
+
 NOT_YET = {}
 
 
